@@ -277,7 +277,8 @@ def split_items(s):
 
 def impl_items(res):
     """harness result -> (items, truncated) or None if the line is inconclusive (timeout etc.).
-    item = ('ans', text) | ('exc', text)."""
+    item = ('ans', text) | ('exc', text). The query is `catch(q(_R),_B,true),copy_term(_R-_B,R-B)`:
+    an answer binds R, a ball binds B (and is the last item)."""
     if res is None:
         return None
     its = split_items(res.strip())
@@ -289,18 +290,39 @@ def impl_items(res):
         its = its[:-1]       # "no more answers" (a choice point was left): not an item
     out = []
     for x in its:
-        if x.startswith("{") and x.endswith("}"):
-            body = x[1:-1]
-            if not body.startswith("R="):
-                return None
-            out.append(('ans', norm_text(body[2:])))
-        elif x.startswith("exception(") and x.endswith(")"):
-            out.append(('exc', norm_text(x[10:-1])))
-        elif x.startswith("error(") and x.endswith(")"):
-            out.append(('exc', norm_text(x[6:-1])))
+        if x in ("{}", "true"):
+            out.append(('ans', '_0'))
+            continue
+        if not (x.startswith("{") and x.endswith("}")):
+            return None      # timeout / panic / error outside the catch: not interpretable here
+        try:
+            b = parse_bindings(x[1:-1])
+        except (ValueError, IndexError):
+            return None
+        if "B" in b:
+            out.append(('exc', normalise(b["B"], {})))
+        elif "R" in b:
+            out.append(('ans', normalise(b["R"], {})))
         else:
-            return None      # true / timeout / panic / false in the middle: not interpretable here
+            out.append(('ans', '_0'))
     return out, trunc
+
+
+def parse_bindings(body):
+    """`X=term,Y=term` -> {name: parsed term}."""
+    p = P(body)
+    out = {}
+    while p.i < len(body):
+        m = P.VAR.match(body, p.i)
+        if not m or body[m.end():m.end() + 1] != "=":
+            raise ValueError("bad binding in %r at %d" % (body, p.i))
+        p.i = m.end() + 1
+        out[m.group(0)] = p.term()
+        if p.i < len(body):
+            if body[p.i] != ",":
+                raise ValueError("bad separator in %r at %d" % (body, p.i))
+            p.i += 1
+    return out
 
 
 def model_items(res):
@@ -611,7 +633,9 @@ def make_case(cid, clauses, queries, meta=None):
     for k, (h, _b) in enumerate(queries):
         qid = "%s_q%d" % (cid, k)
         qids.append(qid)
-        impl.append("Q\t%s\t%d\t%s." % (qid, MAXA, pl(h)))
+        # the toplevel reports a rethrown ball and some bindings imprecisely (see notes/findings-misc.md):
+        # catch the ball inside the query and print a copy of the answer term
+        impl.append("Q\t%s\t%d\tcatch(%s,_B,true),copy_term(_R-_B,R-B)." % (qid, MAXA, pl(h).replace("(R)", "(_R)")))
         model.append("run\t%s\t%s\t%s\t%s\t%d" % (qid, prog, canon(h), "R", MAXA))
     c = {"id": cid, "clauses": allc, "nq": len(queries), "qids": qids, "text": text,
          "impl": impl, "model": model}
@@ -697,7 +721,7 @@ def directed_cases():
         (Pd('x', X), S('catch', Pd('u', X), S('oops', V('_'), Z, U), S('=', X, S('c', Z, U)))),
         (Pd('y', X), S('catch', conj([t(X), S('>', X, I(1)), S('throw', X)]), Y, conj([S('=', X, S('b', Y))]))),
         (Pd('z', X), S('catch', S('catch', S('throw', I(1)), I(2), S('=', X, A('inner'))), I(1), S('=', X, A('outer')))),
-        (Pd('k', X), S('catch', S('is', X, S('+', A('foo'), I(1))), S('error', Y, V('_')), S('=', X, Y))),
+        (Pd('k', X), S('catch', conj([S('=', Z, A('foo')), S('is', X, S('+', Z, I(1)))]), S('error', Y, V('_')), S('=', X, Y))),
         (Pd('fa', X), S('findall', Y, Pd('u', Y), X)),
         (Pd('fb', X), S('findall', S('-', Y, Z), S(';', t(Y), S('=', Y, Z)), X)),
     ], [Pd('u', X), Pd('w', X), Pd('x', X), Pd('y', X), Pd('z', X), Pd('k', X), Pd('fa', X), Pd('fb', X),
@@ -772,6 +796,10 @@ def _run_guarded(binary, cases, per_line_timeout, env=None):
                 continue          # noise on stdout (warnings): not a result line
             res[i] = v
             done += 1
+        died = None
+        if not ok:
+            time.sleep(0.05)
+            died = p.poll()
         try:
             p.kill()
         except Exception:
@@ -780,7 +808,7 @@ def _run_guarded(binary, cases, per_line_timeout, env=None):
         if ok:
             break
         ci = lines[done][0]
-        res[core.line_id(lines[done][1])] = "hang"
+        res[core.line_id(lines[done][1])] = "hang" if died is None else "crash(rc=%s)" % died
         for cj, l in lines[done + 1:]:
             if cj != ci:
                 break
@@ -802,7 +830,7 @@ def run_model_guarded(lines, per_line_timeout=15.0, jobs=6):
     """the interpreter has a depth budget but no step budget: a line that takes too long is reported
     as `oof timeout`."""
     out = run_guarded(core.DRIVER_BIN, [[l] for l in lines], per_line_timeout, jobs)
-    return {k: ("oof timeout" if v in ("hang", "skipped") else v) for k, v in out.items()}
+    return {k: ("oof timeout" if v in ("hang", "skipped") or v.startswith("crash") else v) for k, v in out.items()}
 
 
 def run_impl_guarded(cases, per_line_timeout=25.0, jobs=8, env=None):
@@ -815,13 +843,9 @@ IMPL_ENV = {"SV_TIMEOUT_MS": "5000"}
 
 
 def impl_items2(res):
-    """like impl_items, but `{}` / `true` (R left unbound) count as the answer `_0`."""
-    if res is None:
-        return None
-    if res == "hang":
+    if res == "hang" or (res or "").startswith("crash"):
         return 'hang'
-    r = " ;; ".join("{R=_U}" if x in ("{}", "true") else x for x in split_items(res.strip()))
-    return impl_items(r)
+    return impl_items(res)
 
 
 def arith_multi_error(c):
@@ -856,20 +880,30 @@ def is_arith_error(item):
 
 
 def out_of_domain(mi, ii):
-    """a list used as a goal or inside an arithmetic expression: Scryer treats lists specially there
-    (type_error(callable, List); evaluation of '.'/2), the reference follows ISO to the letter
-    (existence_error / type_error(evaluable, '.'/2)). Not compared (see ASSUMPTIONS)."""
-    for its in (mi[0], ii[0] if isinstance(ii, tuple) else []):
+    """not compared (see ASSUMPTIONS): (a) a list used as a goal or inside an arithmetic expression:
+    Scryer treats lists specially there (type_error(callable, List); evaluation of '.'/2), the
+    reference follows ISO to the letter (existence_error / type_error(evaluable, '.'/2));
+    (b) findall/3 with a third argument that is not a partial list: Scryer (like ISO) checks it before
+    running the goal, the reference after; (c) which of two different arithmetic errors is raised."""
+    mits = mi[0]
+    iits = ii[0] if isinstance(ii, tuple) else []
+    for its in (mits, iits):
         for x in its:
             if x[0] == 'exc' and LIST_GOAL.search(x[1]):
-                return True
-    return False
+                return 'skip-domain'
+    for k, x in enumerate(iits):
+        if x[0] == 'exc' and x[1].startswith("'error'('type_error'('list',") and (k >= len(mits) or mits[k] != x):
+            return 'skip-domain'
+    if mits and iits and len(mits) == len(iits) and mits[:-1] == iits[:-1] and mits[-1] != iits[-1] \
+            and is_arith_error(mits[-1]) and is_arith_error(iits[-1]):
+        return 'skip-arith'
+    return None
 
 
 def compare(mi, ii):
     """model items/trunc vs implementation items/trunc -> None if they agree, else (kind, detail)."""
     if ii == 'hang':
-        return "no-termination", "the implementation did not answer (the reference terminates)"
+        return "no-termination-or-crash", "the implementation did not answer or died (the reference terminates)"
     mits, mtr = mi
     iits, itr = ii
     n = min(len(mits), len(iits))
@@ -905,8 +939,10 @@ def judge_query(c, model_res, impl_res, loaded):
     ii = impl_items2(impl_res)
     if ii is None:
         return 'problem', ("uninterpretable", "implementation result: %s" % impl_res)
-    if ii != 'hang' and out_of_domain(mi, ii):
-        return 'skip-domain', None
+    if ii != 'hang':
+        sk = out_of_domain(mi, ii)
+        if sk:
+            return sk, None
     problem = compare(mi, ii)
     if problem is None:
         return 'agree', None
@@ -964,10 +1000,34 @@ def rw_test_call(t):
     return t
 
 
+def rw_arith_call(t):
+    """E1 op E2 => call(op, E1, E2), X is E => call(is, X, E): identical by the definition of call/N;
+    takes the arithmetic out of the inlined path of the code generator."""
+    if t[0] == 's' and len(t[2]) == 2 and (t[1] in CMPS or t[1] == 'is'):
+        return S('call', A(t[1]), t[2][0], t[2][1])
+    return t
+
+
+def rw_clause_init_vars(h, b, cid):
+    """H :- B  =>  H :- vinit(V1), ..., vinit(Vn), B for the body variables of a clause with a
+    disjunction / if-then-else (vinit(_) is a fact): identical answers; every variable then has its
+    first occurrence before the control construct and lives in the environment frame."""
+    fs = set()
+    functors(b, fs)
+    if not ({";/2", "->/2"} & fs):
+        return b
+    vs = [v for v in term_vars(b, []) if v not in term_vars(h, [])]
+    if not vs:
+        return b
+    return conj([S("vinit_" + cid, V(v)) for v in vs] + [b])
+
+
 REWRITES = [
     ("cut-in-if-condition-not-local", [rw_cond_call]),
     ("inlined-type-test-clobbers-live-register", [rw_test_call]),
-    ("cut-in-if-condition-not-local+inlined-type-test-clobbers-live-register", [rw_cond_call, rw_test_call]),
+    ("arithmetic-intermediate-clobbers-live-register", [rw_arith_call]),
+    ("variable-first-occurring-in-a-branch-is-not-initialised-on-the-other-path", ["init"]),
+    ("several-compiler-defects", [rw_cond_call, rw_test_call, rw_arith_call, "init"]),
 ]
 
 
@@ -975,11 +1035,18 @@ def rewrite_case(c, k, fs, cid):
     allc = c["clauses"]
     nq = c["nq"]
     cl = []
+    init = False
     for h, b in allc[:len(allc) - nq] + [allc[len(allc) - nq + k]]:
         for f in fs:
-            b = map_goals(b, f)
+            if f == "init":
+                b2 = rw_clause_init_vars(h, b, cid)
+                init = init or b2 != b
+                b = b2
+            else:
+                b = map_goals(b, f)
         cl.append((h, b))
-    return make_case(cid, cl[:-1], [cl[-1]], {"family": "rewrite"})
+    extra = [(S("vinit_" + cid, V("_")), TRUE)] if init else []
+    return make_case(cid, extra + cl[:-1], [cl[-1]], {"family": "rewrite"})
 
 
 def eval_cases(cases):
@@ -987,6 +1054,10 @@ def eval_cases(cases):
     model = run_model_guarded([l for c in cases for l in c["model"]])
     run = [c for c in cases if all(not (model.get(q) or "oof").startswith("oof") for q in c["qids"])]
     impl = run_impl_guarded([c["impl"] for c in run], per_line_timeout=12.0, env=IMPL_ENV) if run else {}
+    for c in run:
+        rs = [impl.get(c["id"] + "_l")] + [impl.get(q) for q in c["qids"]]
+        if any(r is None or r == "hang" or r.startswith("timeout") or r.startswith("skipped") for r in rs):
+            impl.update(run_impl_guarded([c["impl"]], per_line_timeout=75.0, jobs=1, env={"SV_TIMEOUT_MS": "60000"}))
     return model, impl
 
 
@@ -1004,7 +1075,7 @@ def classify(failing):
             c, k, _p, _m = failing[i]
             cid = "w%d_%d_%s" % (ri, i, c["id"])
             rc = rewrite_case(c, k, fs, cid)
-            if rc["text"] != rewrite_case(c, k, [], cid)["text"]:
+            if rc["text"] != rewrite_case(c, k, [], cid)["text"]:   # the rewriting applies
                 cs[i] = rc
         if not cs:
             continue
@@ -1133,10 +1204,11 @@ def run(ctx):
     retried = 0
     for c in runnable:
         rs = [impl.get(c["id"] + "_l")] + [impl.get(q) for q in c["run_qids"]]
-        if any(r is None or r.startswith("timeout") or r.startswith("skipped") or r.startswith("abort") for r in rs) \
-                and not any(r == "hang" for r in rs if r):
+        if any(r is None or r == "hang" or r.startswith("timeout") or r.startswith("skipped") or r.startswith("abort")
+               for r in rs):
+            # a loaded machine makes the watchdogs fire: believe a hang only after a serial re-run
             retried += 1
-            impl.update(run_impl_guarded([c["impl"]], per_line_timeout=90.0, jobs=1, env={"SV_TIMEOUT_MS": "60000"}))
+            impl.update(run_impl_guarded([c["impl"]], per_line_timeout=75.0, jobs=1, env={"SV_TIMEOUT_MS": "60000"}))
     # 3. judge
     agree = 0
     evaluations = 0
@@ -1177,7 +1249,7 @@ def run(ctx):
             elif st == 'problem':
                 failing.append((c, k, problem, model.get(qid)))
                 r = impl.get(qid) or ""
-                if r == "hang" or r.startswith("panic"):
+                if r == "hang" or r.startswith("panic") or r.startswith("crash"):
                     poisoned = True
             else:
                 skipped[st] += 1
